@@ -17,11 +17,13 @@ enum Op {
     G1(u8), // 0 = P(7), 1 = N, 2 = E1
 }
 const OPS: [Op; 10] = [Op::Set(1), Op::Set(2), Op::ToggleAccept, Op::Follow(1), Op::Follow(2), Op::Stop, Op::Update, Op::G1(0), Op::G1(1), Op::G1(2)];
-fn g1_out(k: u8) -> Output<i32, E> {
+/// what getter g1 answers after the `pos`-th operation set it to kind k; the error value depends
+/// on the position (Other(1) at even positions, the crate's own FromNone at odd ones)
+fn g1_out(k: u8, pos: usize) -> Output<i32, E> {
     match k {
         0 => Ok(Some(Datum::new(Time(5), 7))),
         1 => Ok(None),
-        _ => Err(E1),
+        _ => Err(err_at(pos)),
     }
 }
 fn ops_show(seq: &[usize]) -> String {
@@ -49,18 +51,19 @@ fn settable_history(seq: &[usize], constant: bool, e: &mut Eng) -> u64 {
     let mut accept = true;
     let mut following: u8 = 0;
     let mut g1: u8 = 0;
+    let mut g1_pos: usize = 0;
     let mut log: Vec<i32> = Vec::new();
     let mut value: i32 = 100; // ConstantGetter's current value
     let mut nontrivial = false;
     let name = if constant { "constant-getter" } else { "recording" };
     let r = guard(|| {
-        let g1r = rc(Scr::<i32>::new(g1_out(0)));
+        let g1r = rc(Scr::<i32>::new(g1_out(0, 0)));
         let g2r = rc(Scr::<i32>::new(Ok(Some(Datum::new(Time(6), 9)))));
         let clock = rc(ScrTime::new(Ok(Time(40))));
         let mut rec = RecSet::<i32>::new();
         let mut cg = ConstantGetter::new(rf(&clock), 100i32);
         let mut trace: Vec<(u32, Option<i32>, Vec<i32>, Obs)> = Vec::new();
-        for &i in seq {
+        for (pos, &i) in seq.iter().enumerate() {
             let op = OPS[i];
             let mut res = 0u32;
             match op {
@@ -84,7 +87,7 @@ fn settable_history(seq: &[usize], constant: bool, e: &mut Eng) -> u64 {
                     }
                 }
                 Op::Update => res = obs_unit(&if constant { cg.update() } else { rec.update() }),
-                Op::G1(k) => g1r.borrow_mut().next = g1_out(k),
+                Op::G1(k) => g1r.borrow_mut().next = g1_out(k, pos),
             }
             let lr = if constant { cg.get_last_request() } else { rec.get_last_request() };
             let got = if constant { obs(&cg.get().map(|o| o.map(|d| Datum::new(d.time, d.value as f32)))) } else { Obs::NONE };
@@ -112,16 +115,19 @@ fn settable_history(seq: &[usize], constant: bool, e: &mut Eng) -> u64 {
             }
             Op::Follow(w) => following = w,
             Op::Stop => following = 0,
-            Op::G1(x) => g1 = x,
+            Op::G1(x) => {
+                g1 = x;
+                g1_pos = k;
+            }
             Op::Update => {
                 let src: Option<Output<i32, E>> = match following {
                     0 => None,
-                    1 => Some(g1_out(g1)),
+                    1 => Some(g1_out(g1, g1_pos)),
                     _ => Some(Ok(Some(Datum::new(Time(6), 9)))),
                 };
                 match src {
                     None => {}
-                    Some(Err(_)) => exp_res = 2 + 1,
+                    Some(Err(er)) => exp_res = obs_unit(&Err(er)),
                     Some(Ok(None)) => {}
                     Some(Ok(Some(d))) => {
                         nontrivial = true;
@@ -189,7 +195,7 @@ fn gc_out(k: u8) -> Output<Datum<Command>, E> {
         0 => Ok(Some(Datum::new(Time(60), Datum::new(Time(8), Command::Velocity(2.5))))),
         1 => Ok(Some(Datum::new(Time(61), Datum::new(Time(-8), Command::Position(-1.0))))),
         2 => Ok(None),
-        _ => Err(E2),
+        _ => Err(Error::FromNone), // the crate's own error variant
     }
 }
 
@@ -265,7 +271,7 @@ fn terminal_history(seq: &[usize], e: &mut Eng) -> u64 {
                     // value was already forwarded depends on an order the property does not fix
                     exp_res = vec![];
                     if s_err { exp_res.push(2 + 1); }
-                    if c_err { exp_res.push(2 + 2); }
+                    if c_err { exp_res.push(obs_unit(&Err(Error::FromNone))); }
                     let before = (ls, lc);
                     let mut after = before;
                     if !s_err { if let Some(v) = s_val { after.0 = Some(v); } }
